@@ -289,7 +289,7 @@ def run_exprs(inp):
             try:
                 rr = eval(text, {"math": math}, ns2)
                 rec["rebound"] = struct(rr)
-                want = build(t, ns2)      # the same construction over the rebound containers
+                want = build(rec["built"], ns2)      # the structure of e, constructed over the rebound containers
                 rec["rebound_ok"] = bool(rr == want) and value_of(rr) == value_of(want) and deps_of(rr) == deps_of(want) \
                     and struct(rr) == struct(want)
             except Exception as ex:  # noqa
@@ -386,36 +386,6 @@ def run_manager_case(case):
             return res
     d1 = m1.dump()
     res["dump"] = d1
-    # --- dump -> load into a fresh manager over equivalent containers
-    data2 = {k: (v if k == "f" else copy.deepcopy(v)) for k, v in data1.items()}
-    m2, ns2 = mk_data_manager(data2, kinds)
-    err = safe(lambda: m2.load(d1))
-    if err:
-        res["fail"] = {"what": "load(dump()) raised", "error": err, "dump": d1}
-        return res
-    d2 = m2.dump()
-    if d2 != d1:
-        res["fail"] = {"what": "dump() of the loaded manager differs", "dump": d1, "loaded_dump": d2}
-        return res
-    # a second load with overwrite=True must replace every definition by itself
-    err = safe(lambda: m2.load(d1, overwrite=True))
-    if err or sorted(m2.dump()) != sorted(d1):
-        res["fail"] = {"what": "reloading the dump with overwrite=True changed the definitions", "error": err,
-                       "dump": d1, "loaded_dump": m2.dump()}
-        return res
-    for i, (tgt, val) in enumerate(case["followups"]):
-        e1 = safe(lambda: apply_assign(ns1, tgt, val))
-        e2 = safe(lambda: apply_assign(ns2, tgt, val))
-        if e1 != e2:
-            res["fail"] = {"what": "follow-up assignment raises differently", "step": i, "errors": [e1, e2]}
-            return res
-        if e1:
-            break
-        s1, s2 = snapshot(data1), snapshot(data2)
-        if s1 != s2:
-            res["fail"] = {"what": "containers differ after a follow-up assignment", "step": i,
-                           "original": s1, "loaded": s2, "dump": d1}
-            return res
     # --- copy_expr_from
     cp = case.get("copy")
     if cp:
@@ -458,12 +428,17 @@ def run_manager_case(case):
             ns4b = dict(ns4)
             for lab, t in cp["bindings"]:
                 ns4b[lab] = build(t, ns4)
-            for tgt, val in cp.get("pre_history", []):
-                apply_assign(ns4, tgt, val)
-            for tgt, val in cp["source_tasks"]:
-                k = str(build(tgt, ns4b))
-                if cp["overwrite"] or k not in before:
-                    m4.set_value(build(tgt, ns4b), build(val, ns4b))
+            def direct():
+                for tgt, val in cp.get("pre_history", []):
+                    apply_assign(ns4, tgt, val)
+                for tgt, val in cp["source_tasks"]:
+                    k = str(build(tgt, ns4b))
+                    if cp["overwrite"] or k not in before:
+                        m4.set_value(build(tgt, ns4b), build(val, ns4b))
+            err = safe(direct)
+            if err:
+                res["reaction_skipped"] = "defining the expected manager directly raised " + err
+                cp = dict(cp, followups=[])
             # bring both to the same data state: run every task once
             for mm in (m3, m4):
                 safe(lambda: mm.run_tasks(mm.find_tasks()))
@@ -480,6 +455,36 @@ def run_manager_case(case):
                     res["fail"] = {"what": "after copy_expr_from: containers differ after a follow-up assignment", "step": i,
                                    "copied": s3, "direct": s4, "after": after}
                     return res
+    # --- dump -> load into a fresh manager over equivalent containers
+    data2 = {k: (v if k == "f" else copy.deepcopy(v)) for k, v in data1.items()}
+    m2, ns2 = mk_data_manager(data2, kinds)
+    err = safe(lambda: m2.load(d1))
+    if err:
+        res["fail"] = {"what": "load(dump()) raised", "error": err, "dump": d1}
+        return res
+    d2 = m2.dump()
+    if d2 != d1:
+        res["fail"] = {"what": "dump() of the loaded manager differs", "dump": d1, "loaded_dump": d2}
+        return res
+    # a second load with overwrite=True must replace every definition by itself
+    err = safe(lambda: m2.load(d1, overwrite=True))
+    if err or sorted(m2.dump()) != sorted(d1):
+        res["fail"] = {"what": "reloading the dump with overwrite=True changed the definitions", "error": err,
+                       "dump": d1, "loaded_dump": m2.dump()}
+        return res
+    for i, (tgt, val) in enumerate(case["followups"]):
+        e1 = safe(lambda: apply_assign(ns1, tgt, val))
+        e2 = safe(lambda: apply_assign(ns2, tgt, val))
+        if e1 != e2:
+            res["fail"] = {"what": "follow-up assignment raises differently", "step": i, "errors": [e1, e2]}
+            return res
+        if e1:
+            break
+        s1, s2 = snapshot(data1), snapshot(data2)
+        if s1 != s2:
+            res["fail"] = {"what": "containers differ after a follow-up assignment", "step": i,
+                           "original": s1, "loaded": s2, "dump": d1}
+            return res
     return res
 
 
